@@ -186,7 +186,8 @@ def StepPost (n a b s : Nat) (M : HM) (r : StepRes) : Prop :=
   ∃ E : M1, r.M.toM1 = mmul M.toM1 E ∧ MRel E r.a r.b a b ∧ MOk r.M ∧ r.M.alloc = M.alloc ∧
     (r.ret ≠ 0 → NonId E ∧ B ^ s ≤ r.a ∧ B ^ s ≤ r.b ∧ r.a < B ^ r.ret ∧ r.b < B ^ r.ret ∧
         (B ^ (r.ret - 1) ≤ r.a ∨ B ^ (r.ret - 1) ≤ r.b) ∧ r.ret ≤ n) ∧
-    (r.ret = 0 → r.a < B ^ n ∧ r.b < B ^ n ∧ (r.a < B ^ s ∨ r.b < B ^ s ∨ absDiff r.a r.b < B ^ s))
+    (r.ret = 0 → r.a < B ^ n ∧ r.b < B ^ n ∧ (r.a < B ^ s ∨ r.b < B ^ s ∨ absDiff r.a r.b < B ^ s) ∧
+        ((r.a = a ∧ r.b = b ∧ r.M = M) ∨ (B ^ s ≤ r.a ∧ r.a = r.b ∧ (b = 2 * a ∨ a = 2 * b))))
 
 theorem nlimbs_le_iff' (x k : Nat) : nlimbs x ≤ k ↔ x < B ^ k :=
   ⟨lt_pow_of_nlimbs_le, nlimbs_le_of_lt⟩
@@ -265,7 +266,7 @@ theorem subdivStepS_spec (a b n s : Nat) (M : HM) (hM : MOk M) (ha : a < B ^ n) 
   have hid : M.toM1 = mmul M.toM1 idM := (mmul_id _).symm
   -- the exits that change nothing
   have unchanged : (a < B ^ s ∨ b < B ^ s ∨ absDiff a b < B ^ s) → StepPost n a b s M ⟨0, a, b, M⟩ := fun h =>
-    ⟨idM, hid, mrel_id a b, hM, rfl, fun hc => absurd rfl hc, fun _ => ⟨ha, hb, h⟩⟩
+    ⟨idM, hid, mrel_id a b, hM, rfl, fun hc => absurd rfl hc, fun _ => ⟨ha, hb, h, Or.inl ⟨rfl, rfl, rfl⟩⟩⟩
   unfold subdivStepS
   extract_lets an bn sw la lb lb1 M1 sw2 la2 lb2 sw' q r r2 M2 M3
   have e : an = nlimbs a := rfl
@@ -342,16 +343,23 @@ theorem subdivStepS_spec (a b n s : Nat) (M : HM) (hM : MOk M) (ha : a < B ^ n) 
     rw [hk1]; congr 1; simp [mmul, idM]
   generalize mmul idM (elemQ 1 (if sw = true then 1 else 0)) = E1 at *
   have hlb1B : lb1 < B ^ n := by omega
+  have hlb1e : lb1 + la = lb := by omega
   rw [eM1]
   clear eM1 elb1
   split
   · -- a = b after the subtraction: recorded, 0 returned
     rename_i h
     have hout := lrel_out hL1
-    refine ⟨E1, hM1, hout, hk2, hk3, fun hc => absurd rfl hc, fun _ => ⟨?_, ?_, Or.inr (Or.inr ?_)⟩⟩
+    refine ⟨E1, hM1, hout, hk2, hk3, fun hc => absurd rfl hc, fun _ => ⟨?_, ?_, Or.inr (Or.inr ?_), Or.inr ⟨?_, ?_, ?_⟩⟩⟩
     · cases sw <;> simp <;> omega
     · cases sw <;> simp <;> omega
     · rw [h.2]; cases sw <;> simp [absDiff] <;> exact pow_pos B_pos _
+    · cases sw <;> simp <;> omega
+    · rw [h.2]
+    · have h2 := h.2
+      rcases hab with ⟨e1, e2⟩ | ⟨e1, e2⟩
+      · left; omega
+      · right; omega
   rename_i hne2
   -- order again
   have hord2 : la2 < lb2 := by rw [← ela2, ← elb2]; exact order_lt la lb1 hne2 sw2 hsw2
